@@ -2,7 +2,10 @@
 """Confirmation lane for C03 findings: replays a history through the REAL `dmypy` command line
 (bundled typeshed, real daemon process, wall clock) and compares the last response with `mypy`.
 
-usage: tools/confirm_c03.py <replay.json>   |   tools/confirm_c03.py U1 error-all 'tmp/a.py=1' 'tmp/c.py=1'
+usage: tools/confirm_c03.py <replay.json>
+   or  tools/confirm_c03.py U1 error-all [init:tmp/c.py=3] 'tmp/a.py=1' 'tmp/c.py=1' ['tmp/b.py=1!']
+       (a trailing '!' marks an edit that is NOT followed by a check request; cache-start mode starts the
+        daemon with --use-fine-grained-cache on a cache written by `mypy --cache-fine-grained` for the initial state)
 """
 import json
 import os
@@ -12,43 +15,68 @@ import sys
 import time
 
 sys.path.insert(0, os.path.dirname(os.path.dirname(os.path.abspath(__file__))))
-from mc import universes  # noqa: E402
 from mc.checks import c03  # noqa: E402
 
 
 def main() -> int:
     if sys.argv[1].endswith(".json"):
         d = json.load(open(sys.argv[1]))["detail"]
-        uname, mode, hist = d["universe"], d["mode"], tuple((p, v) for p, v in d["history"])
+        uname, mode = d["universe"], d["mode"]
+        init = tuple((p, v) for p, v in d.get("init", []))
+        hist = tuple((h[0], h[1], h[2] if len(h) > 2 else 1) for h in d["history"])
     else:
         uname, mode = sys.argv[1], sys.argv[2]
-        hist = tuple((a.split("=")[0], int(a.split("=")[1])) for a in sys.argv[3:])
-    u = universes.ALL[uname]
+        init_l, hist_l = [], []
+        for a in sys.argv[3:]:
+            checked = 1
+            if a.endswith("!"):
+                a, checked = a[:-1], 0
+            if a.startswith("init:"):
+                p, v = a[5:].split("=")
+                init_l.append((p, int(v)))
+            else:
+                p, v = a.split("=")
+                hist_l.append((p, int(v), checked))
+        init, hist = tuple(init_l), tuple(hist_l)
+    u = c03.U(uname)
     root = f"/dev/shm/confirm-c03-{os.getpid()}"
     shutil.rmtree(root, ignore_errors=True)
     os.makedirs(root)
-    env = dict(os.environ, PYTHONPATH="/repo")
+    env = dict(os.environ, PYTHONPATH=os.environ.get("VERIF_REPO", "/repo"))
     env.pop("PYTHON_MYPY_VERIF", None)
     flags = ["--follow-imports=" + ("normal" if mode == "normal-root" else "error"), "--no-error-summary",
              "--show-error-codes"]
     for k, v in u.overrides.items():
         if k != "follow_imports" and v is True:
             flags.append("--" + k.replace("_", "-"))
-    states = c03.apply_history(u, hist)
+    states = c03.states_after(u, init, hist)
+    checked = [1] + [h[2] for h in hist]
     out = None
     try:
+        now = time.time() - 1000
         for i, vm in enumerate(states):
-            c03.write_state(root, u, vm, i, states[i - 1] if i else None)
-            now = time.time() + i  # real, increasing mtimes
             for p, v in vm.items():
-                if u.files[p][v] is not None and (i == 0 or states[i - 1][p] != v):
-                    os.utime(os.path.join(root, c03._strip(p)), (now, now))
+                if i == 0 or states[i - 1][p] != v:
+                    c03._set_file(root, u, p, v, int(now) + 10 * i)
+            if not checked[i]:
+                print(f"step {i}: edit without a check request")
+                continue
             files = [p for p, _m in c03.sources_for(u, vm, mode)]
-            r = subprocess.run([sys.executable, "-m", "mypy.dmypy", "run", "--", *flags, *files], cwd=root, env=env,
+            if i == 0 and mode == "cache-start":
+                r0 = subprocess.run([sys.executable, "-m", "mypy", "--cache-fine-grained", "--local-partial-types",
+                                     *flags, *files], cwd=root, env=env, capture_output=True, text=True)
+                print(f"step 0 mypy --cache-fine-grained -> exit {r0.returncode}")
+                for l in r0.stdout.splitlines():
+                    print("   ", l)
+                subprocess.run([sys.executable, "-m", "mypy.dmypy", "start", "--", "--use-fine-grained-cache",
+                                *flags], cwd=root, env=env, capture_output=True, text=True)
+                continue
+            cmd = ["check", "--", *files] if mode == "cache-start" else ["run", "--", *flags, *files]
+            r = subprocess.run([sys.executable, "-m", "mypy.dmypy", *cmd], cwd=root, env=env,
                                capture_output=True, text=True)
             out = (r.stdout.splitlines(), r.returncode)
-            print(f"step {i} dmypy run -> exit {r.returncode}")
-            for l in r.stdout.splitlines():
+            print(f"step {i} dmypy {cmd[0]} -> exit {r.returncode}")
+            for l in r.stdout.splitlines() + r.stderr.splitlines()[-3:]:
                 print("   ", l)
         files = [p for p, _m in c03.sources_for(u, states[-1], mode)]
         r = subprocess.run([sys.executable, "-m", "mypy", "--no-incremental", "--local-partial-types", *flags, *files],
@@ -56,10 +84,8 @@ def main() -> int:
         print(f"mypy (full, non-incremental) -> exit {r.returncode}")
         for l in r.stdout.splitlines():
             print("   ", l)
-        same = out is not None and sorted(out[0]) == sorted(l for l in r.stdout.splitlines()
-                                                              if l != "Daemon started") and out[1] == r.returncode
         d_lines = [l for l in (out[0] if out else []) if l not in ("Daemon started",)]
-        same = sorted(d_lines) == sorted(r.stdout.splitlines()) and out[1] == r.returncode
+        same = sorted(d_lines) == sorted(r.stdout.splitlines()) and out is not None and out[1] == r.returncode
         print("CONFIRMED-DIFFERENT" if not same else "SAME (not reproduced through the real CLI)")
         return 0 if same else 1
     finally:
